@@ -403,6 +403,15 @@ Theorem C19_decode_is_stateless_obligation :
 Proof. vm_compute. reflexivity. Qed.
 Print Assumptions C19_decode_is_stateless_obligation.
 
+(* the callables a control line can reach are the command table, nothing else: the only dynamically determined callee of
+   Server.dispatcher (regenerated: locals that are called, resolved through all their bindings; reflective primitives) is
+   `self.commands_mapping.get(<verb>)`.  This is what makes `handle` (a command acts on its own session) the right shape for
+   C19_server_line_contained: an unknown verb reaches no code at all (502), in particular no method of the Server object *)
+Theorem C19_dispatch_lookup_is_table_only_obligation :
+  dispatch_callees_check Gen.ParserFacts.dispatch_dynamic_callees = true.
+Proof. vm_compute. reflexivity. Qed.
+Print Assumptions C19_dispatch_lookup_is_table_only_obligation.
+
 (* non-vacuity *)
 Example C19_unix_line_parses :
   exists v, parse_list_line utf8 (fun _ => Ok [50; 48]) (fun _ => Exc ValueError)
